@@ -186,7 +186,7 @@ def _bridge_plan(tier):
                 ("pl1", "VersionsQuick", "small"), ("pl3", "VersionsQuick", "small"),
                 ("prod", "VersionsPL2Quick", "small")]
     return [("versions", "VersionsAll", "small"), ("pl0", "VersionsAll", "small"), ("pl1", "VersionsAll", "small"),
-            ("pl3", "VersionsAll", "small"), ("pl2", "VersionsQuick", "small"), ("plnames", "VersionsQuick", "small"),
+            ("pl3", "VersionsAll", "small"), ("pl2", "VersionsPL2Quick", "small"), ("plnames", "VersionsQuick", "small"),
             ("prod", "VersionsQuick", "full")]
 
 
@@ -196,7 +196,7 @@ def _bridge_family(ctx, fam, versions, depth, workers):
          "invariants": BRIDGE_INVS, "versions": versions, "depth": depth}
     try:
         cfg = _bridge_cfg(ctx, name, fam, versions, depth, BRIDGE_INVS)
-        r = ctx.tlc("PLLemma_bridge", cfg, workers=workers, timeout=_timeout(), expect_records=False)
+        r = ctx.tlc("PLLemma_bridge", cfg, workers=workers, timeout=max(900, _timeout()), expect_records=False, heap="4g")
         d.update(ok=True, got="holds", scenarios=r.distinct // 2, seconds=round(r.wall, 1))
     except MachineryError as e:
         d["got"] = str(e)[:600]
@@ -210,7 +210,7 @@ def _bridge_witness(ctx, inv, workers):
     d = {"obligation": "bridge/" + inv, "tool": "tlc", "expect": "violated", "ok": False}
     try:
         cfg = _bridge_cfg(ctx, "w_" + inv, "pl1", "VersionsQuick", "small", inv)
-        r = ctx.tlc("PLLemma_bridge", cfg, workers=workers, timeout=_timeout(), expect_records=False,
+        r = ctx.tlc("PLLemma_bridge", cfg, workers=workers, timeout=_timeout(), expect_records=False, heap="4g",
                     allow_violation=True)
         d["got"] = "violated" if r.violated == inv else "holds"
         d["ok"] = r.violated == inv
@@ -234,15 +234,20 @@ def run_lemma(ctx, order_lemma=None, bridge=True):
             order_lemma = ctx.tier != "quick"
         ctx._spec_dir()   # the scratch copy of spec/ exists before the threads start
         w = max(2, ctx.workers // 4)
-        jobs = [lambda: _apalache(ctx, "main", "Init", "CInitAll", MAIN_OBLIGATIONS, True)]
+        # the obligations that must hold in a run of their own: they are the point, and they finish first
+        hold = [o for o in MAIN_OBLIGATIONS if o[1] == "holds"]
+        refute = [o for o in MAIN_OBLIGATIONS if o[1] == "violated"]
+        ajobs = [lambda: _apalache(ctx, "lemma", "Init", "CInitAll", hold, False),
+                 lambda: _apalache(ctx, "refute", "Init", "CInitAll", refute, True)]
         if order_lemma:
-            jobs.append(lambda: _apalache(ctx, "order", "InitPair", "CInitAny", ORDER_OBLIGATIONS, False))
+            ajobs.append(lambda: _apalache(ctx, "order", "InitPair", "CInitAny", ORDER_OBLIGATIONS, False))
+        bjobs = []
         if bridge:
             for fam, versions, depth in _bridge_plan(ctx.tier):
-                jobs.append(lambda fam=fam, versions=versions, depth=depth:
-                            [_bridge_family(ctx, fam, versions, depth, w)])
+                bjobs.append(lambda fam=fam, versions=versions, depth=depth:
+                             [_bridge_family(ctx, fam, versions, depth, w)])
             for inv in ("NeverAccepts", "NeverEscalates", "NeverRejectsWithNoEsc"):
-                jobs.append(lambda inv=inv: [_bridge_witness(ctx, inv, 2)])
+                bjobs.append(lambda inv=inv: [_bridge_witness(ctx, inv, 2)])
 
         def guarded(job):
             try:
@@ -250,9 +255,12 @@ def run_lemma(ctx, order_lemma=None, bridge=True):
             except Exception as e:
                 return [{"obligation": "?", "tool": "?", "expect": "holds", "got": "unexpected: %r" % (e,), "ok": False}]
 
-        with ThreadPoolExecutor(max_workers=4) as ex:
-            for res in ex.map(guarded, jobs):
-                details += res
+        # the Apalache runs (the proof) start at once and side by side; the bridge families two at a time next to them
+        with ThreadPoolExecutor(max_workers=3) as aex, ThreadPoolExecutor(max_workers=2) as bex:
+            fa = [aex.submit(guarded, j) for j in ajobs]
+            fb = [bex.submit(guarded, j) for j in bjobs]
+            for f in fa + fb:
+                details += f.result()
     except Exception as e:
         details.append({"obligation": "?", "tool": "?", "expect": "holds", "got": "unexpected: %r" % (e,), "ok": False})
     out = {"obligations": len(details), "discharged": sum(1 for d in details if d.get("ok")),
